@@ -54,7 +54,7 @@ fn main() {
                 "C13" => (gen_net2::gen_c13(&mut rng, thorough), fals::Fals::new()),
                 "C09" => (gen_net2::gen_c09(&mut rng, thorough), fals::Fals::new()),
                 "C12" => (gen_net2::gen_c12(&mut rng, thorough), fals::Fals::new()),
-                "C05" => (gen_net2::gen_c05(&mut rng, thorough), fals::Fals::new()),
+                "C05" => (gen_net2::gen_c05(&mut rng, thorough), gen_net2::fals_c05(&mut frng, thorough)),
                 _ => {
                     eprintln!("no generator for {}", prop);
                     std::process::exit(2)
